@@ -180,6 +180,72 @@ def token_chain_ok(leaves, rx, sk, n, consume=True):
     return (pos == n) if consume else True
 
 
+LAYOUT_WS_RULE = "\nLAYOUT: WS | EMPTY;\n"
+
+
+def _layout_probe_worker(job):
+    """A grammar plus a LAYOUT rule matching exactly whitespace runs, main table LALR and SLR: when the table of
+    the plain grammar is deterministic (no strategy applied) the LAYOUT-rule parser must accept exactly what the
+    plain parser (tied to the model) accepts, with the same tree -- the layout sub-parser, built first on the same
+    Grammar object, must not disturb the main table (seed C04-6: FOLLOW sets memoised on the grammar)."""
+    gname, gtext, inputs = job
+    import parglare
+    from parglare import Grammar, Parser
+    from parglare.tables import LALR, SLR
+    from lib import impl
+    out = {"gname": gname, "gtext": gtext, "rows": [], "skipped": 0}
+    if "terminals" in gtext:
+        ltext = gtext.replace("terminals", LAYOUT_WS_RULE.strip("\n") + "\nterminals", 1) + "\nWS: /\\s+/;\n"
+    else:
+        ltext = gtext + LAYOUT_WS_RULE + "terminals\nWS: /\\s+/;\n"
+    out["ltext"] = ltext
+
+    def shape(n):
+        if n.is_term():
+            return [n.symbol.name, n.start_position, n.end_position]
+        return [n.symbol.name, n.start_position, n.end_position, [shape(c) for c in n.children]]
+    for tabs, tname in ((LALR, "LALR"), (SLR, "SLR")):
+        ps = []
+        try:
+            for t in (gtext, ltext):
+                with impl.time_limit(20), impl.quiet():
+                    ps.append(Parser(Grammar.from_string(t), build_tree=True, prefer_shifts=False,
+                                     prefer_shifts_over_empty=False, tables=tabs))
+        except BaseException:  # noqa
+            out["skipped"] += 1
+            continue
+        for w in inputs:
+            r = []
+            for p in ps:
+                try:
+                    with impl.time_limit(10):
+                        r.append(["ok", shape(p.parse(w))])
+                except parglare.SyntaxError as e:
+                    r.append(["SyntaxError", e.location.start_position])
+                except BaseException as e:  # noqa
+                    r.append(["exc", impl.exc_kind(e)])
+            out["rows"].append([tname, w, r[0], r[1]])
+    return out
+
+
+def layout_probe(ctx, st, jobs):
+    sel = [j for j in jobs if "LAYOUT" not in j[1]][: (40 if ctx.quick() else 400)]
+    with mp.Pool(common.NPROC) as pool:
+        outs = pool.map(_layout_probe_worker, [(n, t, ins[:40]) for n, t, ins in sel], chunksize=1)
+    st["layout_rule_grammars"] = len(outs)
+    st["layout_rule_parses"] = 0
+    st["layout_rule_skipped_constructions"] = sum(o["skipped"] for o in outs)
+    for o in outs:
+        for tname, w, a, b in o["rows"]:
+            st["layout_rule_parses"] += 1
+            if a != b and "Timeout" not in (a[1], b[1]):
+                ctx.violation("deterministic %s table: the parser of the grammar with a whitespace LAYOUT rule gives %r "
+                              "on %r, the parser of the plain grammar (ws skipping) %r" % (tname, b, w, a),
+                              {"grammar": o["ltext"], "plain_grammar": o["gtext"], "input": w,
+                               "options": {"tables": tname}}, key="layout-probe-" + tname)
+                break
+
+
 def run(ctx):
     import time
     t0 = time.time()
@@ -187,10 +253,13 @@ def run(ctx):
     with mp.Pool(common.NPROC) as pool:
         results = pool.map(_worker, jobs, chunksize=1)
     t_impl = time.time() - t0
+    st0 = {}
+    layout_probe(ctx, st0, jobs)
     st = {"grammars": 0, "grammar_errors": {}, "combos": 0, "construct": {}, "deterministic_combos": 0,
           "parses": 0, "accepts": 0, "syntax_errors": 0, "disambiguation_errors": 0, "other": {},
           "glr_compared": 0, "ref_sentences": 0, "ref_nonsentences": 0, "tables_validated": 0,
           "model_out_of_fuel": 0, "trees_certified": 0}
+    st.update(st0)
     mcases = []
     meta = []
     wsl = [ord(c) for c in WS]
